@@ -42,6 +42,7 @@ type Solver struct {
 	WonBy     map[string]int
 	Restarts  int
 	CrossAll  bool // wait for every member and compare (cross-check mode)
+	Crossed   int  // queries on which at least two members gave a definitive, agreeing answer
 	only      string
 }
 
@@ -251,7 +252,12 @@ func (s *Solver) Assert(t *Term) {
 func (s *Solver) Check() string { return s.CheckT(s.timeoutMs) }
 
 // Only restricts the next CheckT to the named member ("" = whole portfolio).
-func (s *Solver) Only(name string) { s.only = name }
+func (s *Solver) Only(name string) {
+	if s.CrossAll {
+		return // cross-check mode: everybody answers everything
+	}
+	s.only = name
+}
 
 // CheckT: like Check with an explicit wall-clock limit for this query.
 func (s *Solver) CheckT(limitMs int) string {
@@ -316,6 +322,17 @@ loop:
 			if !s.CrossAll {
 				break loop
 			}
+		}
+	}
+	if s.CrossAll {
+		n := 0
+		for _, t := range got {
+			if t == "sat" || t == "unsat" {
+				n++
+			}
+		}
+		if n >= 2 {
+			s.Crossed++
 		}
 	}
 	// kill members that have not answered
